@@ -14,7 +14,7 @@ import tlc
 from common import Inconclusive, log
 
 ALL = ["NoCrash", "RuntimeAfterRegistrations", "NoEventBeforeAllNext", "DoneOnlyAfterAll", "NoGhostInvoke",
-       "StreamOwnerIsReserver", "OkHasBody", "ResetIsFresh", "EventsOnlyToSubscribers", "RestoreOkOnlyAfterHook"]
+       "StreamOwnerIsReserver", "OkHasBody", "ResetIsFresh", "EventsOnlyToSubscribers", "FailResetShutdownOnlyToSubscribers", "RestoreOkOnlyAfterHook"]
 
 # name -> constants.  Measured on 16 cores: base 14 k distinct states / 3 s, misuse 27 k / 3 s, race 194 k / 12 s,
 # faults 2.9 M / 76 s, deep 
